@@ -2198,6 +2198,10 @@ namespace awkward {
     bool make_shifts = (isoption()  &&
                         reducer.returns_positions()  &&
                         !branchdepth.first  && negaxis == branchdepth.second);
+    if (!isoption()  &&  reducer.returns_positions()  &&  shifts.length() != 0) {
+      // a non-option IndexedArray only reorders: the shifts it was given have to be reordered with it
+      make_shifts = true;
+    }
 
     Index64 nextshifts(make_shifts ? index_.length() - numnull : 0);
     if (make_shifts) {
